@@ -261,11 +261,12 @@ def explore(ctx):
         if c.doc is not None and rng.random() < 0.3 and not (c.desc and c.desc[0] == 'boolfix-directed'):
             # application tags on scalars (they are stripped under Any / untyped / extra positions)
             doc = c.doc
-            sc = [p for p in G.all_paths(doc) if G.get_at_path(doc, p)[0] == 's']
+            nested_only = rng.random() < 0.4
+            sc = [] if nested_only else [p for p in G.all_paths(doc) if G.get_at_path(doc, p)[0] == 's']
             for p in rng.sample(sc, min(len(sc), rng.randint(1, 2))):
                 tag = rng.choice(['!Celsius', '!Unknown', '!Unrelated'])
                 doc = G.replace_at(doc, p, lambda d: G.with_tag(d, tag))
-            if rng.random() < 0.4:
+            if not nested_only and rng.random() < 0.4:
                 # ... and on a mapping that is read as a class: the name of a class that the
                 # "unrelated class" transformation will register
                 try:
@@ -276,6 +277,36 @@ def explore(ctx):
                 if maps:
                     p = rng.choice(maps)
                     doc = G.replace_at(doc, p, lambda d: G.with_tag(d, '!Unrelated'))
+            if nested_only:
+                # ... or NESTED inside an extra attribute: an untagged list / mapping holding a tagged node,
+                # also under a key spelt like the catch-all parameter itself
+                try:
+                    from props import c17
+                    maps = c17.class_map_paths(c.spec, doc, c.doc_type)
+                except Exception:  # noqa
+                    maps = []
+                rng.shuffle(maps)
+                ctx.count('nested_unrelated_attempts')
+                for p in maps[:4]:
+                    m = G.get_at_path(doc, p)
+                    inner = ('m', [(G.S('zzz_unrelated'), G.S('2'))], '!Unrelated')
+                    plain_inner = ('m', [(G.S('zzz_unrelated'), G.S('2'))], None)
+                    shape = rng.choice(['list', 'map'])
+                    wrap = (lambda x: ('q', [x], None)) if shape == 'list' else (lambda x: ('m', [(G.S('deep'), x)], None))
+                    key = rng.choice(['znotes', 'znotes', '_yatiml_extra'])
+                    # only where the mapping takes extra attributes: the untagged variant must load
+                    probe = G.replace_at(doc, p, lambda d: ('m', list(m[1]) + [(G.S(key), wrap(plain_inner))], m[2]))
+                    try:
+                        cp = L.build_case(rng, yaml, yatiml, c.spec, c.doc_type, probe, ('probe',))
+                        L.run_case(cp, yaml)
+                    except Exception:  # noqa
+                        continue
+                    if cp.real_out[0] != 'ok':
+                        ctx.count('nested_unrelated_probe_' + cp.real_out[0])
+                        continue
+                    doc = G.replace_at(doc, p, lambda d: ('m', list(m[1]) + [(G.S(key), wrap(inner))], m[2]))
+                    ctx.count('nested_unrelated_in_extras')
+                    break
             try:
                 c2 = L.build_case(rng, yaml, yatiml, c.spec, c.doc_type, doc, ('apptags',))
                 L.run_case(c2, yaml)
